@@ -18,7 +18,9 @@ class C01(Prop):
     assumptions = ["profiles are strict (strictb: each row's non-NaN ranks are 1..k, each once) with matching shapes; capacities >= 1"]
 
     def cases(self, rng, tier):
-        return G.gen_cases(rng, tier)
+        if tier != "quick":
+            for c in G.giant_cases(): yield c
+        for c in G.gen_cases(rng, tier): yield c
     def shrink(self, case):
         return G.shrink_gs(case)
     def run(self, case):
@@ -36,10 +38,12 @@ class C01(Prop):
             return ("mutated_argument", "scf modified its arguments")
         return None
     def coq(self, case, obs):
+        if case.get("giant"): return None
         return ("gs", G.coq_case(case, self.pairs0(case, obs)))
     def nontrivial(self, case, obs):
         if obs["status"] != "ok" or not obs["pairs"]:
             return False
+        if case.get("giant"): return True
         p0 = self.pairs0(case, obs)
         return any(case["R"][r][h] != 1 for r, h in p0) or len(p0) < len(case["R"])
 
